@@ -176,6 +176,9 @@ impl<'a> PrettyPrinter<'a> {
         self.convert_flow_like(ctx, math_frac.to_untyped(), |ctx, node| {
             if let Some(expr) = node.cast::<Expr>() {
                 FlowItem::spaced(self.convert_expr(ctx, expr))
+            } else if node.kind() == SyntaxKind::Semicolon {
+                // It ends the embedded code before it only when it follows directly.
+                FlowItem::tight_spaced(self.arena.text(";"))
             } else if node.kind() != SyntaxKind::Space {
                 FlowItem::spaced(self.convert_trivia_untyped(node))
             } else {
